@@ -293,85 +293,85 @@ pub fn type_compat_8_8<S: Src>(s: &mut S) { type_compat::<S, 8, 8>(s) }
 
 harnesses! {
     #[kani::unwind(30)] #[kani::stub(std::hash::RandomState::new, crate::stubs::rs_new)] c09_cons_forwards => cons_forwards;
-    #[kani::unwind(6)] #[kani::stub(core::str::slice_error_fail, crate::stubs::slice_error_fail_stub)] c09_type_compat_0_0 => type_compat_0_0;
-    #[kani::unwind(6)] #[kani::stub(core::str::slice_error_fail, crate::stubs::slice_error_fail_stub)] c09_type_compat_0_1 => type_compat_0_1;
-    #[kani::unwind(6)] #[kani::stub(core::str::slice_error_fail, crate::stubs::slice_error_fail_stub)] c09_type_compat_0_2 => type_compat_0_2;
-    #[kani::unwind(6)] #[kani::stub(core::str::slice_error_fail, crate::stubs::slice_error_fail_stub)] c09_type_compat_0_3 => type_compat_0_3;
-    #[kani::unwind(6)] #[kani::stub(core::str::slice_error_fail, crate::stubs::slice_error_fail_stub)] c09_type_compat_0_4 => type_compat_0_4;
-    #[kani::unwind(6)] #[kani::stub(core::str::slice_error_fail, crate::stubs::slice_error_fail_stub)] c09_type_compat_0_5 => type_compat_0_5;
-    #[kani::unwind(6)] #[kani::stub(core::str::slice_error_fail, crate::stubs::slice_error_fail_stub)] c09_type_compat_0_6 => type_compat_0_6;
-    #[kani::unwind(6)] #[kani::stub(core::str::slice_error_fail, crate::stubs::slice_error_fail_stub)] c09_type_compat_0_7 => type_compat_0_7;
-    #[kani::unwind(6)] #[kani::stub(core::str::slice_error_fail, crate::stubs::slice_error_fail_stub)] c09_type_compat_0_8 => type_compat_0_8;
-    #[kani::unwind(6)] #[kani::stub(core::str::slice_error_fail, crate::stubs::slice_error_fail_stub)] c09_type_compat_1_0 => type_compat_1_0;
-    #[kani::unwind(6)] #[kani::stub(core::str::slice_error_fail, crate::stubs::slice_error_fail_stub)] c09_type_compat_1_1 => type_compat_1_1;
-    #[kani::unwind(6)] #[kani::stub(core::str::slice_error_fail, crate::stubs::slice_error_fail_stub)] c09_type_compat_1_2 => type_compat_1_2;
-    #[kani::unwind(6)] #[kani::stub(core::str::slice_error_fail, crate::stubs::slice_error_fail_stub)] c09_type_compat_1_3 => type_compat_1_3;
-    #[kani::unwind(6)] #[kani::stub(core::str::slice_error_fail, crate::stubs::slice_error_fail_stub)] c09_type_compat_1_4 => type_compat_1_4;
-    #[kani::unwind(6)] #[kani::stub(core::str::slice_error_fail, crate::stubs::slice_error_fail_stub)] c09_type_compat_1_5 => type_compat_1_5;
-    #[kani::unwind(6)] #[kani::stub(core::str::slice_error_fail, crate::stubs::slice_error_fail_stub)] c09_type_compat_1_6 => type_compat_1_6;
-    #[kani::unwind(6)] #[kani::stub(core::str::slice_error_fail, crate::stubs::slice_error_fail_stub)] c09_type_compat_1_7 => type_compat_1_7;
-    #[kani::unwind(6)] #[kani::stub(core::str::slice_error_fail, crate::stubs::slice_error_fail_stub)] c09_type_compat_1_8 => type_compat_1_8;
-    #[kani::unwind(6)] #[kani::stub(core::str::slice_error_fail, crate::stubs::slice_error_fail_stub)] c09_type_compat_2_0 => type_compat_2_0;
-    #[kani::unwind(6)] #[kani::stub(core::str::slice_error_fail, crate::stubs::slice_error_fail_stub)] c09_type_compat_2_1 => type_compat_2_1;
-    #[kani::unwind(6)] #[kani::stub(core::str::slice_error_fail, crate::stubs::slice_error_fail_stub)] c09_type_compat_2_2 => type_compat_2_2;
-    #[kani::unwind(6)] #[kani::stub(core::str::slice_error_fail, crate::stubs::slice_error_fail_stub)] c09_type_compat_2_3 => type_compat_2_3;
-    #[kani::unwind(6)] #[kani::stub(core::str::slice_error_fail, crate::stubs::slice_error_fail_stub)] c09_type_compat_2_4 => type_compat_2_4;
-    #[kani::unwind(6)] #[kani::stub(core::str::slice_error_fail, crate::stubs::slice_error_fail_stub)] c09_type_compat_2_5 => type_compat_2_5;
-    #[kani::unwind(6)] #[kani::stub(core::str::slice_error_fail, crate::stubs::slice_error_fail_stub)] c09_type_compat_2_6 => type_compat_2_6;
-    #[kani::unwind(6)] #[kani::stub(core::str::slice_error_fail, crate::stubs::slice_error_fail_stub)] c09_type_compat_2_7 => type_compat_2_7;
-    #[kani::unwind(6)] #[kani::stub(core::str::slice_error_fail, crate::stubs::slice_error_fail_stub)] c09_type_compat_2_8 => type_compat_2_8;
-    #[kani::unwind(6)] #[kani::stub(core::str::slice_error_fail, crate::stubs::slice_error_fail_stub)] c09_type_compat_3_0 => type_compat_3_0;
-    #[kani::unwind(6)] #[kani::stub(core::str::slice_error_fail, crate::stubs::slice_error_fail_stub)] c09_type_compat_3_1 => type_compat_3_1;
-    #[kani::unwind(6)] #[kani::stub(core::str::slice_error_fail, crate::stubs::slice_error_fail_stub)] c09_type_compat_3_2 => type_compat_3_2;
-    #[kani::unwind(6)] #[kani::stub(core::str::slice_error_fail, crate::stubs::slice_error_fail_stub)] c09_type_compat_3_3 => type_compat_3_3;
-    #[kani::unwind(6)] #[kani::stub(core::str::slice_error_fail, crate::stubs::slice_error_fail_stub)] c09_type_compat_3_4 => type_compat_3_4;
-    #[kani::unwind(6)] #[kani::stub(core::str::slice_error_fail, crate::stubs::slice_error_fail_stub)] c09_type_compat_3_5 => type_compat_3_5;
-    #[kani::unwind(6)] #[kani::stub(core::str::slice_error_fail, crate::stubs::slice_error_fail_stub)] c09_type_compat_3_6 => type_compat_3_6;
-    #[kani::unwind(6)] #[kani::stub(core::str::slice_error_fail, crate::stubs::slice_error_fail_stub)] c09_type_compat_3_7 => type_compat_3_7;
-    #[kani::unwind(6)] #[kani::stub(core::str::slice_error_fail, crate::stubs::slice_error_fail_stub)] c09_type_compat_3_8 => type_compat_3_8;
-    #[kani::unwind(6)] #[kani::stub(core::str::slice_error_fail, crate::stubs::slice_error_fail_stub)] c09_type_compat_4_0 => type_compat_4_0;
-    #[kani::unwind(6)] #[kani::stub(core::str::slice_error_fail, crate::stubs::slice_error_fail_stub)] c09_type_compat_4_1 => type_compat_4_1;
-    #[kani::unwind(6)] #[kani::stub(core::str::slice_error_fail, crate::stubs::slice_error_fail_stub)] c09_type_compat_4_2 => type_compat_4_2;
-    #[kani::unwind(6)] #[kani::stub(core::str::slice_error_fail, crate::stubs::slice_error_fail_stub)] c09_type_compat_4_3 => type_compat_4_3;
-    #[kani::unwind(6)] #[kani::stub(core::str::slice_error_fail, crate::stubs::slice_error_fail_stub)] c09_type_compat_4_4 => type_compat_4_4;
-    #[kani::unwind(6)] #[kani::stub(core::str::slice_error_fail, crate::stubs::slice_error_fail_stub)] c09_type_compat_4_5 => type_compat_4_5;
-    #[kani::unwind(6)] #[kani::stub(core::str::slice_error_fail, crate::stubs::slice_error_fail_stub)] c09_type_compat_4_6 => type_compat_4_6;
-    #[kani::unwind(6)] #[kani::stub(core::str::slice_error_fail, crate::stubs::slice_error_fail_stub)] c09_type_compat_4_7 => type_compat_4_7;
-    #[kani::unwind(6)] #[kani::stub(core::str::slice_error_fail, crate::stubs::slice_error_fail_stub)] c09_type_compat_4_8 => type_compat_4_8;
-    #[kani::unwind(6)] #[kani::stub(core::str::slice_error_fail, crate::stubs::slice_error_fail_stub)] c09_type_compat_5_0 => type_compat_5_0;
-    #[kani::unwind(6)] #[kani::stub(core::str::slice_error_fail, crate::stubs::slice_error_fail_stub)] c09_type_compat_5_1 => type_compat_5_1;
-    #[kani::unwind(6)] #[kani::stub(core::str::slice_error_fail, crate::stubs::slice_error_fail_stub)] c09_type_compat_5_2 => type_compat_5_2;
-    #[kani::unwind(6)] #[kani::stub(core::str::slice_error_fail, crate::stubs::slice_error_fail_stub)] c09_type_compat_5_3 => type_compat_5_3;
-    #[kani::unwind(6)] #[kani::stub(core::str::slice_error_fail, crate::stubs::slice_error_fail_stub)] c09_type_compat_5_4 => type_compat_5_4;
-    #[kani::unwind(6)] #[kani::stub(core::str::slice_error_fail, crate::stubs::slice_error_fail_stub)] c09_type_compat_5_5 => type_compat_5_5;
-    #[kani::unwind(6)] #[kani::stub(core::str::slice_error_fail, crate::stubs::slice_error_fail_stub)] c09_type_compat_5_6 => type_compat_5_6;
-    #[kani::unwind(6)] #[kani::stub(core::str::slice_error_fail, crate::stubs::slice_error_fail_stub)] c09_type_compat_5_7 => type_compat_5_7;
-    #[kani::unwind(6)] #[kani::stub(core::str::slice_error_fail, crate::stubs::slice_error_fail_stub)] c09_type_compat_5_8 => type_compat_5_8;
-    #[kani::unwind(6)] #[kani::stub(core::str::slice_error_fail, crate::stubs::slice_error_fail_stub)] c09_type_compat_6_0 => type_compat_6_0;
-    #[kani::unwind(6)] #[kani::stub(core::str::slice_error_fail, crate::stubs::slice_error_fail_stub)] c09_type_compat_6_1 => type_compat_6_1;
-    #[kani::unwind(6)] #[kani::stub(core::str::slice_error_fail, crate::stubs::slice_error_fail_stub)] c09_type_compat_6_2 => type_compat_6_2;
-    #[kani::unwind(6)] #[kani::stub(core::str::slice_error_fail, crate::stubs::slice_error_fail_stub)] c09_type_compat_6_3 => type_compat_6_3;
-    #[kani::unwind(6)] #[kani::stub(core::str::slice_error_fail, crate::stubs::slice_error_fail_stub)] c09_type_compat_6_4 => type_compat_6_4;
-    #[kani::unwind(6)] #[kani::stub(core::str::slice_error_fail, crate::stubs::slice_error_fail_stub)] c09_type_compat_6_5 => type_compat_6_5;
-    #[kani::unwind(6)] #[kani::stub(core::str::slice_error_fail, crate::stubs::slice_error_fail_stub)] c09_type_compat_6_6 => type_compat_6_6;
-    #[kani::unwind(6)] #[kani::stub(core::str::slice_error_fail, crate::stubs::slice_error_fail_stub)] c09_type_compat_6_7 => type_compat_6_7;
-    #[kani::unwind(6)] #[kani::stub(core::str::slice_error_fail, crate::stubs::slice_error_fail_stub)] c09_type_compat_6_8 => type_compat_6_8;
-    #[kani::unwind(6)] #[kani::stub(core::str::slice_error_fail, crate::stubs::slice_error_fail_stub)] c09_type_compat_7_0 => type_compat_7_0;
-    #[kani::unwind(6)] #[kani::stub(core::str::slice_error_fail, crate::stubs::slice_error_fail_stub)] c09_type_compat_7_1 => type_compat_7_1;
-    #[kani::unwind(6)] #[kani::stub(core::str::slice_error_fail, crate::stubs::slice_error_fail_stub)] c09_type_compat_7_2 => type_compat_7_2;
-    #[kani::unwind(6)] #[kani::stub(core::str::slice_error_fail, crate::stubs::slice_error_fail_stub)] c09_type_compat_7_3 => type_compat_7_3;
-    #[kani::unwind(6)] #[kani::stub(core::str::slice_error_fail, crate::stubs::slice_error_fail_stub)] c09_type_compat_7_4 => type_compat_7_4;
-    #[kani::unwind(6)] #[kani::stub(core::str::slice_error_fail, crate::stubs::slice_error_fail_stub)] c09_type_compat_7_5 => type_compat_7_5;
-    #[kani::unwind(6)] #[kani::stub(core::str::slice_error_fail, crate::stubs::slice_error_fail_stub)] c09_type_compat_7_6 => type_compat_7_6;
-    #[kani::unwind(6)] #[kani::stub(core::str::slice_error_fail, crate::stubs::slice_error_fail_stub)] c09_type_compat_7_7 => type_compat_7_7;
-    #[kani::unwind(6)] #[kani::stub(core::str::slice_error_fail, crate::stubs::slice_error_fail_stub)] c09_type_compat_7_8 => type_compat_7_8;
-    #[kani::unwind(6)] #[kani::stub(core::str::slice_error_fail, crate::stubs::slice_error_fail_stub)] c09_type_compat_8_0 => type_compat_8_0;
-    #[kani::unwind(6)] #[kani::stub(core::str::slice_error_fail, crate::stubs::slice_error_fail_stub)] c09_type_compat_8_1 => type_compat_8_1;
-    #[kani::unwind(6)] #[kani::stub(core::str::slice_error_fail, crate::stubs::slice_error_fail_stub)] c09_type_compat_8_2 => type_compat_8_2;
-    #[kani::unwind(6)] #[kani::stub(core::str::slice_error_fail, crate::stubs::slice_error_fail_stub)] c09_type_compat_8_3 => type_compat_8_3;
-    #[kani::unwind(6)] #[kani::stub(core::str::slice_error_fail, crate::stubs::slice_error_fail_stub)] c09_type_compat_8_4 => type_compat_8_4;
-    #[kani::unwind(6)] #[kani::stub(core::str::slice_error_fail, crate::stubs::slice_error_fail_stub)] c09_type_compat_8_5 => type_compat_8_5;
-    #[kani::unwind(6)] #[kani::stub(core::str::slice_error_fail, crate::stubs::slice_error_fail_stub)] c09_type_compat_8_6 => type_compat_8_6;
-    #[kani::unwind(6)] #[kani::stub(core::str::slice_error_fail, crate::stubs::slice_error_fail_stub)] c09_type_compat_8_7 => type_compat_8_7;
-    #[kani::unwind(6)] #[kani::stub(core::str::slice_error_fail, crate::stubs::slice_error_fail_stub)] c09_type_compat_8_8 => type_compat_8_8;
+    #[kani::unwind(5)] #[kani::stub(core::str::slice_error_fail, crate::stubs::slice_error_fail_stub)] c09_type_compat_0_0 => type_compat_0_0;
+    #[kani::unwind(5)] #[kani::stub(core::str::slice_error_fail, crate::stubs::slice_error_fail_stub)] c09_type_compat_0_1 => type_compat_0_1;
+    #[kani::unwind(5)] #[kani::stub(core::str::slice_error_fail, crate::stubs::slice_error_fail_stub)] c09_type_compat_0_2 => type_compat_0_2;
+    #[kani::unwind(5)] #[kani::stub(core::str::slice_error_fail, crate::stubs::slice_error_fail_stub)] c09_type_compat_0_3 => type_compat_0_3;
+    #[kani::unwind(5)] #[kani::stub(core::str::slice_error_fail, crate::stubs::slice_error_fail_stub)] c09_type_compat_0_4 => type_compat_0_4;
+    #[kani::unwind(5)] #[kani::stub(core::str::slice_error_fail, crate::stubs::slice_error_fail_stub)] c09_type_compat_0_5 => type_compat_0_5;
+    #[kani::unwind(5)] #[kani::stub(core::str::slice_error_fail, crate::stubs::slice_error_fail_stub)] c09_type_compat_0_6 => type_compat_0_6;
+    #[kani::unwind(5)] #[kani::stub(core::str::slice_error_fail, crate::stubs::slice_error_fail_stub)] c09_type_compat_0_7 => type_compat_0_7;
+    #[kani::unwind(5)] #[kani::stub(core::str::slice_error_fail, crate::stubs::slice_error_fail_stub)] c09_type_compat_0_8 => type_compat_0_8;
+    #[kani::unwind(5)] #[kani::stub(core::str::slice_error_fail, crate::stubs::slice_error_fail_stub)] c09_type_compat_1_0 => type_compat_1_0;
+    #[kani::unwind(5)] #[kani::stub(core::str::slice_error_fail, crate::stubs::slice_error_fail_stub)] c09_type_compat_1_1 => type_compat_1_1;
+    #[kani::unwind(5)] #[kani::stub(core::str::slice_error_fail, crate::stubs::slice_error_fail_stub)] c09_type_compat_1_2 => type_compat_1_2;
+    #[kani::unwind(5)] #[kani::stub(core::str::slice_error_fail, crate::stubs::slice_error_fail_stub)] c09_type_compat_1_3 => type_compat_1_3;
+    #[kani::unwind(5)] #[kani::stub(core::str::slice_error_fail, crate::stubs::slice_error_fail_stub)] c09_type_compat_1_4 => type_compat_1_4;
+    #[kani::unwind(5)] #[kani::stub(core::str::slice_error_fail, crate::stubs::slice_error_fail_stub)] c09_type_compat_1_5 => type_compat_1_5;
+    #[kani::unwind(5)] #[kani::stub(core::str::slice_error_fail, crate::stubs::slice_error_fail_stub)] c09_type_compat_1_6 => type_compat_1_6;
+    #[kani::unwind(5)] #[kani::stub(core::str::slice_error_fail, crate::stubs::slice_error_fail_stub)] c09_type_compat_1_7 => type_compat_1_7;
+    #[kani::unwind(5)] #[kani::stub(core::str::slice_error_fail, crate::stubs::slice_error_fail_stub)] c09_type_compat_1_8 => type_compat_1_8;
+    #[kani::unwind(5)] #[kani::stub(core::str::slice_error_fail, crate::stubs::slice_error_fail_stub)] c09_type_compat_2_0 => type_compat_2_0;
+    #[kani::unwind(5)] #[kani::stub(core::str::slice_error_fail, crate::stubs::slice_error_fail_stub)] c09_type_compat_2_1 => type_compat_2_1;
+    #[kani::unwind(5)] #[kani::stub(core::str::slice_error_fail, crate::stubs::slice_error_fail_stub)] c09_type_compat_2_2 => type_compat_2_2;
+    #[kani::unwind(5)] #[kani::stub(core::str::slice_error_fail, crate::stubs::slice_error_fail_stub)] c09_type_compat_2_3 => type_compat_2_3;
+    #[kani::unwind(5)] #[kani::stub(core::str::slice_error_fail, crate::stubs::slice_error_fail_stub)] c09_type_compat_2_4 => type_compat_2_4;
+    #[kani::unwind(5)] #[kani::stub(core::str::slice_error_fail, crate::stubs::slice_error_fail_stub)] c09_type_compat_2_5 => type_compat_2_5;
+    #[kani::unwind(5)] #[kani::stub(core::str::slice_error_fail, crate::stubs::slice_error_fail_stub)] c09_type_compat_2_6 => type_compat_2_6;
+    #[kani::unwind(5)] #[kani::stub(core::str::slice_error_fail, crate::stubs::slice_error_fail_stub)] c09_type_compat_2_7 => type_compat_2_7;
+    #[kani::unwind(5)] #[kani::stub(core::str::slice_error_fail, crate::stubs::slice_error_fail_stub)] c09_type_compat_2_8 => type_compat_2_8;
+    #[kani::unwind(5)] #[kani::stub(core::str::slice_error_fail, crate::stubs::slice_error_fail_stub)] c09_type_compat_3_0 => type_compat_3_0;
+    #[kani::unwind(5)] #[kani::stub(core::str::slice_error_fail, crate::stubs::slice_error_fail_stub)] c09_type_compat_3_1 => type_compat_3_1;
+    #[kani::unwind(5)] #[kani::stub(core::str::slice_error_fail, crate::stubs::slice_error_fail_stub)] c09_type_compat_3_2 => type_compat_3_2;
+    #[kani::unwind(5)] #[kani::stub(core::str::slice_error_fail, crate::stubs::slice_error_fail_stub)] c09_type_compat_3_3 => type_compat_3_3;
+    #[kani::unwind(5)] #[kani::stub(core::str::slice_error_fail, crate::stubs::slice_error_fail_stub)] c09_type_compat_3_4 => type_compat_3_4;
+    #[kani::unwind(5)] #[kani::stub(core::str::slice_error_fail, crate::stubs::slice_error_fail_stub)] c09_type_compat_3_5 => type_compat_3_5;
+    #[kani::unwind(5)] #[kani::stub(core::str::slice_error_fail, crate::stubs::slice_error_fail_stub)] c09_type_compat_3_6 => type_compat_3_6;
+    #[kani::unwind(5)] #[kani::stub(core::str::slice_error_fail, crate::stubs::slice_error_fail_stub)] c09_type_compat_3_7 => type_compat_3_7;
+    #[kani::unwind(5)] #[kani::stub(core::str::slice_error_fail, crate::stubs::slice_error_fail_stub)] c09_type_compat_3_8 => type_compat_3_8;
+    #[kani::unwind(5)] #[kani::stub(core::str::slice_error_fail, crate::stubs::slice_error_fail_stub)] c09_type_compat_4_0 => type_compat_4_0;
+    #[kani::unwind(5)] #[kani::stub(core::str::slice_error_fail, crate::stubs::slice_error_fail_stub)] c09_type_compat_4_1 => type_compat_4_1;
+    #[kani::unwind(5)] #[kani::stub(core::str::slice_error_fail, crate::stubs::slice_error_fail_stub)] c09_type_compat_4_2 => type_compat_4_2;
+    #[kani::unwind(5)] #[kani::stub(core::str::slice_error_fail, crate::stubs::slice_error_fail_stub)] c09_type_compat_4_3 => type_compat_4_3;
+    #[kani::unwind(5)] #[kani::stub(core::str::slice_error_fail, crate::stubs::slice_error_fail_stub)] c09_type_compat_4_4 => type_compat_4_4;
+    #[kani::unwind(5)] #[kani::stub(core::str::slice_error_fail, crate::stubs::slice_error_fail_stub)] c09_type_compat_4_5 => type_compat_4_5;
+    #[kani::unwind(5)] #[kani::stub(core::str::slice_error_fail, crate::stubs::slice_error_fail_stub)] c09_type_compat_4_6 => type_compat_4_6;
+    #[kani::unwind(5)] #[kani::stub(core::str::slice_error_fail, crate::stubs::slice_error_fail_stub)] c09_type_compat_4_7 => type_compat_4_7;
+    #[kani::unwind(5)] #[kani::stub(core::str::slice_error_fail, crate::stubs::slice_error_fail_stub)] c09_type_compat_4_8 => type_compat_4_8;
+    #[kani::unwind(5)] #[kani::stub(core::str::slice_error_fail, crate::stubs::slice_error_fail_stub)] c09_type_compat_5_0 => type_compat_5_0;
+    #[kani::unwind(5)] #[kani::stub(core::str::slice_error_fail, crate::stubs::slice_error_fail_stub)] c09_type_compat_5_1 => type_compat_5_1;
+    #[kani::unwind(5)] #[kani::stub(core::str::slice_error_fail, crate::stubs::slice_error_fail_stub)] c09_type_compat_5_2 => type_compat_5_2;
+    #[kani::unwind(5)] #[kani::stub(core::str::slice_error_fail, crate::stubs::slice_error_fail_stub)] c09_type_compat_5_3 => type_compat_5_3;
+    #[kani::unwind(5)] #[kani::stub(core::str::slice_error_fail, crate::stubs::slice_error_fail_stub)] c09_type_compat_5_4 => type_compat_5_4;
+    #[kani::unwind(5)] #[kani::stub(core::str::slice_error_fail, crate::stubs::slice_error_fail_stub)] c09_type_compat_5_5 => type_compat_5_5;
+    #[kani::unwind(5)] #[kani::stub(core::str::slice_error_fail, crate::stubs::slice_error_fail_stub)] c09_type_compat_5_6 => type_compat_5_6;
+    #[kani::unwind(5)] #[kani::stub(core::str::slice_error_fail, crate::stubs::slice_error_fail_stub)] c09_type_compat_5_7 => type_compat_5_7;
+    #[kani::unwind(5)] #[kani::stub(core::str::slice_error_fail, crate::stubs::slice_error_fail_stub)] c09_type_compat_5_8 => type_compat_5_8;
+    #[kani::unwind(5)] #[kani::stub(core::str::slice_error_fail, crate::stubs::slice_error_fail_stub)] c09_type_compat_6_0 => type_compat_6_0;
+    #[kani::unwind(5)] #[kani::stub(core::str::slice_error_fail, crate::stubs::slice_error_fail_stub)] c09_type_compat_6_1 => type_compat_6_1;
+    #[kani::unwind(5)] #[kani::stub(core::str::slice_error_fail, crate::stubs::slice_error_fail_stub)] c09_type_compat_6_2 => type_compat_6_2;
+    #[kani::unwind(5)] #[kani::stub(core::str::slice_error_fail, crate::stubs::slice_error_fail_stub)] c09_type_compat_6_3 => type_compat_6_3;
+    #[kani::unwind(5)] #[kani::stub(core::str::slice_error_fail, crate::stubs::slice_error_fail_stub)] c09_type_compat_6_4 => type_compat_6_4;
+    #[kani::unwind(5)] #[kani::stub(core::str::slice_error_fail, crate::stubs::slice_error_fail_stub)] c09_type_compat_6_5 => type_compat_6_5;
+    #[kani::unwind(5)] #[kani::stub(core::str::slice_error_fail, crate::stubs::slice_error_fail_stub)] c09_type_compat_6_6 => type_compat_6_6;
+    #[kani::unwind(5)] #[kani::stub(core::str::slice_error_fail, crate::stubs::slice_error_fail_stub)] c09_type_compat_6_7 => type_compat_6_7;
+    #[kani::unwind(5)] #[kani::stub(core::str::slice_error_fail, crate::stubs::slice_error_fail_stub)] c09_type_compat_6_8 => type_compat_6_8;
+    #[kani::unwind(5)] #[kani::stub(core::str::slice_error_fail, crate::stubs::slice_error_fail_stub)] c09_type_compat_7_0 => type_compat_7_0;
+    #[kani::unwind(5)] #[kani::stub(core::str::slice_error_fail, crate::stubs::slice_error_fail_stub)] c09_type_compat_7_1 => type_compat_7_1;
+    #[kani::unwind(5)] #[kani::stub(core::str::slice_error_fail, crate::stubs::slice_error_fail_stub)] c09_type_compat_7_2 => type_compat_7_2;
+    #[kani::unwind(5)] #[kani::stub(core::str::slice_error_fail, crate::stubs::slice_error_fail_stub)] c09_type_compat_7_3 => type_compat_7_3;
+    #[kani::unwind(5)] #[kani::stub(core::str::slice_error_fail, crate::stubs::slice_error_fail_stub)] c09_type_compat_7_4 => type_compat_7_4;
+    #[kani::unwind(5)] #[kani::stub(core::str::slice_error_fail, crate::stubs::slice_error_fail_stub)] c09_type_compat_7_5 => type_compat_7_5;
+    #[kani::unwind(5)] #[kani::stub(core::str::slice_error_fail, crate::stubs::slice_error_fail_stub)] c09_type_compat_7_6 => type_compat_7_6;
+    #[kani::unwind(5)] #[kani::stub(core::str::slice_error_fail, crate::stubs::slice_error_fail_stub)] c09_type_compat_7_7 => type_compat_7_7;
+    #[kani::unwind(5)] #[kani::stub(core::str::slice_error_fail, crate::stubs::slice_error_fail_stub)] c09_type_compat_7_8 => type_compat_7_8;
+    #[kani::unwind(5)] #[kani::stub(core::str::slice_error_fail, crate::stubs::slice_error_fail_stub)] c09_type_compat_8_0 => type_compat_8_0;
+    #[kani::unwind(5)] #[kani::stub(core::str::slice_error_fail, crate::stubs::slice_error_fail_stub)] c09_type_compat_8_1 => type_compat_8_1;
+    #[kani::unwind(5)] #[kani::stub(core::str::slice_error_fail, crate::stubs::slice_error_fail_stub)] c09_type_compat_8_2 => type_compat_8_2;
+    #[kani::unwind(5)] #[kani::stub(core::str::slice_error_fail, crate::stubs::slice_error_fail_stub)] c09_type_compat_8_3 => type_compat_8_3;
+    #[kani::unwind(5)] #[kani::stub(core::str::slice_error_fail, crate::stubs::slice_error_fail_stub)] c09_type_compat_8_4 => type_compat_8_4;
+    #[kani::unwind(5)] #[kani::stub(core::str::slice_error_fail, crate::stubs::slice_error_fail_stub)] c09_type_compat_8_5 => type_compat_8_5;
+    #[kani::unwind(5)] #[kani::stub(core::str::slice_error_fail, crate::stubs::slice_error_fail_stub)] c09_type_compat_8_6 => type_compat_8_6;
+    #[kani::unwind(5)] #[kani::stub(core::str::slice_error_fail, crate::stubs::slice_error_fail_stub)] c09_type_compat_8_7 => type_compat_8_7;
+    #[kani::unwind(5)] #[kani::stub(core::str::slice_error_fail, crate::stubs::slice_error_fail_stub)] c09_type_compat_8_8 => type_compat_8_8;
 }
